@@ -353,8 +353,12 @@ def run_inproc(case: Case, timeout: float = 10.0, tracer=None) -> Outcome:
     sys.stdout = buf
     sys.stderr = buf
     status, detail = 'OK', None
+    # the budget is processor time of this process (a loop that never ends burns it whatever the load of the machine), with a far
+    # longer wall-clock backstop for a wait that burns none; a busy machine alone never turns a terminating run into a "hang"
     old_handler = signal.signal(signal.SIGALRM, _alarm_handler)
-    signal.setitimer(signal.ITIMER_REAL, timeout)
+    old_prof = signal.signal(signal.SIGPROF, _alarm_handler)
+    signal.setitimer(signal.ITIMER_PROF, timeout)
+    signal.setitimer(signal.ITIMER_REAL, max(120.0, timeout * 12))
     try:
         if tracer is not None:
             sys.settrace(tracer)
@@ -370,19 +374,22 @@ def run_inproc(case: Case, timeout: float = 10.0, tracer=None) -> Outcome:
         finally:
             if tracer is not None:
                 sys.settrace(None)
+            signal.setitimer(signal.ITIMER_PROF, 0)
             signal.setitimer(signal.ITIMER_REAL, 0)
     except SystemExit as e:
         if e.code not in (None, 0):
             status, detail = 'REJECT', f'SystemExit: {e.code}'
     except HangError:
-        status, detail = 'HANG', f'no termination within {timeout}s'
+        status, detail = 'HANG', f'no termination within {timeout}s of processor time'
     except RecursionError as e:
         status, detail = 'REJECT', f'RecursionError: {e}'
     except Exception as e:  # a traceback is a non-zero exit of the CLI
         status, detail = 'REJECT', f'{type(e).__name__}: {e}'
     finally:
+        signal.setitimer(signal.ITIMER_PROF, 0)
         signal.setitimer(signal.ITIMER_REAL, 0)
         signal.signal(signal.SIGALRM, old_handler)
+        signal.signal(signal.SIGPROF, old_prof)
         sys.stdout, sys.stderr = old_stdout, old_stderr
     return _collect(status, detail, out, pp, case, buf.getvalue(), work)
 
